@@ -26,7 +26,7 @@ ASPECTS = ("error", "loaded", "bind")
 
 def run(ctx):
     if ctx.quick:
-        plan = [("mc/SymRes_c33_quick.cfg", 900, 4)]
+        plan = [("mc/SymRes_c33_quick.cfg", 900, 10)]
     else:
         plan = [("mc/SymRes_c33_quick.cfg", 900, 1), ("mc/SymRes_c33_triple.cfg", 2400, 4)]
     cov = symres.run_plan(ctx, PROP, plan, ASPECTS, "ld", skip_load_divergent=OWN)
